@@ -315,6 +315,12 @@ def run(ctx):
     ctx.obligation("build:bounds_checks_compiled_in", not nbc,
                    "VNADATA_NO_BOUNDS_CHECK %s" % ("is defined in the build" if nbc else "not defined"))
 
+    # ---------------------------------------------------------------- the format language (package N)
+    # parser of vnadata_set_format / printer behind vnadata_get_format as coded (coq/Data/Format*.v,
+    # Properties_C15f.v), tied by exhaustive small-alphabet enumeration + generated + mutated strings
+    import c15_format
+    ctx.extra["format_language"] = c15_format.run_part(ctx)
+
     # ---------------------------------------------------------------- caller vectors
     caller_vectors(ctx, runner)
 
